@@ -122,12 +122,14 @@ static Opts base_opts(Rng& rng, int nr_exp)
     o.set("problem", rng.range(0, 2));
     o.set("alpha_coeff", rng.range(0, 3));
     o.set("beta_coeff", rng.range(0, 1));
-    o.set("alpha_jump", 0.7081 * 1.3);
+    { double Rmax = rng.pick(std::vector<double>{1.3, 1.3, 1.3, 1.0, 2.0}); o.set("Rmax", Rmax); o.set("alpha_jump", 0.7081 * Rmax); }
     o.set("DirBC_Interior", rng.range(0, 1));
     o.set("R0", rng.coin() ? 1e-5 : 1e-2);
     o.set("stencilDistributionMethod", rng.range(0, 1));
     o.set("cacheDensityProfileCoefficients", 1);
     o.set("cacheDomainGeometry", 1);
+    // the give strategy (1) also runs without caches or with one of them; take (0) requires both
+    if (o.kv["stencilDistributionMethod"] == "1" && rng.coin(0.5)) { o.set("cacheDensityProfileCoefficients", rng.range(0, 1)); o.set("cacheDomainGeometry", rng.range(0, 1)); }
     o.set("maxOpenMPThreads", rng.coin() ? 1 : 4);
     return o;
 }
@@ -538,6 +540,7 @@ static void reuse_delta_histories(Rng& rng, int cases)
     for (int c = 0; c < cases; c++) {
         Opts o = random_solve_opts(rng, 3);
         o.set("divideBy2", 0);
+        o.set("cacheDensityProfileCoefficients", 1); o.set("cacheDomainGeometry", 1); // the strategy is switched between give and take below
         if (o.kv["absoluteTolerance"] == "-1" && o.kv["relativeTolerance"] == "-1") o.set("relativeTolerance", 1e-8);
         o.set("maxOpenMPThreads", 1);
         GMGPolar reused;
